@@ -50,12 +50,21 @@ Proof.
   split; [vm_compute; reflexivity|]. split; vm_compute; reflexivity.
 Qed.
 
-(* ---- print_parse: op_t::print output parses back to the same tree, without ?: ---- *)
-Theorem print_parse_partial : forall cp e,
-  wfv e -> normal cp e -> tern_free e ->
+(* ---- print_parse: op_t::print output (fully parenthesised, a conditional as (c ? a : b))
+   parses back to the same tree - hence to the same value.  `normal`: literals carry their own
+   sign, as in every tree the parser builds. ---- *)
+Theorem print_parse : forall cp e,
+  wfv e -> normal cp e ->
   exists n0, forall n, (n0 <= n)%nat -> parse cp n (print (tree cp e)) = Ok (Some (tree cp e)).
 Proof. exact print_parse_roundtrip. Qed.
-Print Assumptions print_parse_partial.
+Print Assumptions print_parse.
+
+(* 1 < 2 ? 3 : 4 prints as ((1 < 2) ? 3 : 4) and parses back (the witness of the former F6) *)
+Example conditional_print_parses_back :
+  exists t, parse w_cp (parse_fuel w_ternary) w_ternary = Ok (Some t) /\
+            parse w_cp (parse_fuel (print t)) (print t) = Ok (Some t) /\
+            run false w_cp [] w_ternary = Ok (Some (XV (w_num 3))).
+Proof. destruct ternary_print_parses_back as (t & H1 & _ & H3 & H4). exists t. split; [exact H1|]. split; [exact H3|exact H4]. Qed.
 
 (* ---- calc_spec: and/or short-circuit, ?: evaluates one branch, operators are value_t's ---- *)
 Theorem and_short_circuits : forall ord cp n tbl sc l r x,
@@ -130,34 +139,26 @@ Theorem fold_constants_sound_unary : forall ord cp n tbl sc tbl' sc' k a,
 Proof. exact const_un_scope_free. Qed.
 Print Assumptions fold_constants_sound_unary.
 
-(* ---- finding F6: the text printed for a conditional does not parse.  Full statement
-   "parse (print t) = Ok t" is FALSE of the faithful model: witness 1 < 2 ? 3 : 4, printed
-   (({1} < {2}) ? ({3} : {4})). ---- *)
-Theorem print_parse_ternary_refuted :
-  exists cp ts t v,
-    parse cp (parse_fuel ts) ts = Ok (Some t) /\
-    run false cp [] ts = Ok (Some v) /\
-    parse cp (parse_fuel (print t)) (print t) = Err EOther.
-Proof.
-  destruct ternary_print_not_parsable as (t & H1 & _ & H3 & H4).
-  exists w_cp, w_ternary, t, (XV (w_num 3)). split; [exact H1|]. split; [exact H4|exact H3].
-Qed.
-Print Assumptions print_parse_ternary_refuted.
+(* ---- constant folding and the conditional: compile never folds - hence never evaluates - the
+   branch pair of a conditional; it compiles whenever both branches do and stays a branch pair
+   (the former F34: true ? (x = 1; 2) : 3 aborted in compile). ---- *)
+Theorem fold_constants_conditional : forall ord cp n tbl ps a b c1 c2,
+  compile ord cp n tbl ps a = Ok c1 -> compile ord cp n (c_tbl c1) ps b = Ok c2 ->
+  exists c, compile ord cp (S n) tbl ps (OBin KColon a (Some b)) = Ok c /\
+            c_tbl c = c_tbl c2 /\ is_value (c_op c) = false /\
+            (c_changed c = true -> c_op c = OBin KColon (c_op c1) (Some (c_op c2))) /\
+            (c_changed c = false -> c_op c = OBin KColon a (Some b)).
+Proof. exact compile_colon_never_folds. Qed.
+Print Assumptions fold_constants_conditional.
 
-(* ---- finding F34: "an expression gives the same result evaluated directly or after
-   compilation with its constants folded" is FALSE of the faithful model: compile folds an
-   O_COLON node whose branches became constants, and folding evaluates it.
-   Witness true ? (x = 1; 2) : 3. ---- *)
-Theorem fold_constants_ternary_refuted :
-  exists cp t v e, calc false cp 50 [] [] t = Ok v /\ eval false cp 50 [] t = Err e.
-Proof.
-  destruct fold_breaks_ternary as (t & _ & H2 & H3).
-  exists w_cp, t, (XV (w_num 2)), EOther. split; [exact H2|exact H3].
-Qed.
-Print Assumptions fold_constants_ternary_refuted.
+Example conditional_with_constant_branches :
+  exists t, parse w_cp (parse_fuel w_fold) w_fold = Ok (Some t) /\
+            calc false w_cp 50 [] [] t = Ok (XV (w_num 2)) /\
+            (exists tbl, eval false w_cp 50 [] t = Ok (XV (w_num 2), tbl)).
+Proof. exact fold_keeps_ternary. Qed.
 
 (* ---- finding F35: "the printed text evaluates to the same value" is FALSE of the faithful
-   model even without ?: - the printed literals are lexed with KEEP_PREC, which changes the
+   model - the printed literals are lexed with KEEP_PREC, which changes the
    display-zero truth test.  Witness $0.01 * $0.01 * $0.01 & 5. ---- *)
 Theorem print_parse_value_refuted :
   exists cp ts t v v',
